@@ -8,7 +8,7 @@ if [ "$1" = "-R" ]; then
   git -C /repo apply -R /tmp/mutest.$$.diff || { echo "cannot apply reverse"; exit 3; }
   rm -f /tmp/mutest.$$.diff
 else
-  git -C /repo apply "$1" || { echo "cannot apply $1"; exit 3; }; shift
+  git -C /repo apply "$(realpath "$1")" || { echo "cannot apply $1"; exit 3; }; shift
 fi
 trap 'git -C /repo checkout -- . ; git -C /repo status --short | head -3' EXIT
 for p in "$@"; do
